@@ -36,7 +36,7 @@ fn meta() -> Meta {
     Meta {
         id: "C10",
         level: "exploration",
-        rule: "(i) every target string of <= 5 (quick) / 6 (thorough) tokens over {'{', '}', ',', a, e-acute, _Default, W} through Log::enabled and Log::log, with and without an additional writer; (ii) 6 message shapes x absent optional fields x key-values through 13 output kinds (the syslog writer over datagram, stream, UDP and TCP among them); (iii) specification strings: special inputs (the token sweep is C17's); (iv) basename {app, empty, a-umlaut-pp, a.b} x discriminant {none, d, e-acute} x suffix {log, none, l.g, a multi-byte one, restart-0000} x start time on/off x naming (6 schemes + custom formats of 4/10/20/30 characters and three with multi-byte characters, with and without current infix) x append on/off through start-W-R-W-restart-W-shutdown; (v) every single near-miss file name of C14's alphabet x naming x cleanup; (vi) recursive logging (1 and 2 levels deep) against 13 output kinds with and without text filter; (vii) write-mode parameters at their extremes; distinct_nontrivial = distinct cases whose input contains a brace, a multi-byte character, an empty part or a pre-existing file; (viii) recursive logging (a Display that logs) racing with set_new_spec under the controlled scheduler, all schedules with <= 2 / 3 preemptions (a deadlock among threads blocked for real is a verdict); and four rotating records followed by shutdown() with the background cleanup thread under the controlled scheduler",
+        rule: "(i) every target string of <= 5 (quick) / 6 (thorough) tokens over {'{', '}', ',', a, e-acute, _Default, W} through Log::enabled and Log::log, with and without an additional writer; (ii) 6 message shapes x absent optional fields x key-values through 13 output kinds (the syslog writer over datagram, stream, UDP and TCP among them); (iii) specification strings: special inputs (the token sweep is C17's); (iv) basename {app, empty, a-umlaut-pp, a.b} x discriminant {none, d, e-acute} x suffix {log, none, l.g, a multi-byte one, restart-0000} x start time on/off x naming (6 schemes + custom formats of 4/10/20/30 characters and three with multi-byte characters, with and without current infix) x append on/off through start-W-R-W-restart-W-shutdown; (v) every single near-miss file name of C14's alphabet x naming x cleanup; (vi) recursive logging (1 and 2 levels deep) against 13 output kinds with and without text filter; (vii) write-mode parameters at their extremes; distinct_nontrivial = distinct cases whose input contains a brace, a multi-byte character, an empty part or a pre-existing file; (viii) recursive logging (a Display that logs) racing with set_new_spec under the controlled scheduler, all schedules with <= 2 / 3 preemptions (a deadlock among threads blocked for real is a verdict); and four rotating records followed by shutdown() with the background cleanup thread under the controlled scheduler; (v) also one directory with all near-miss names at once; (vii) also rotation parameters at their extremes, hostile TOML texts, and a broken stdout / stderr error channel with panic_if_error_channel_is_broken(false) in a child process",
         assumptions: vec![
             "documented panics are kept out of the alphabets (FileSpec::try_from on a path without file name, invalid strftime format strings, use_utc after local time was used)".into(),
             "a hang is a case that does not finish within 10 s".into(),
